@@ -173,6 +173,8 @@ Fixpoint values_collect (keys : list key) (cells : list value_cell) (errors : li
 (* bundles.rs format_values_from_inner! *)
 Definition format_values_from_inner (step : list bundle_result) (keys : list key) (errors : list lerr)
   : outcome (list (option bytes) * list lerr * nat) :=
+  if is_nil keys then Done ([], errors, 0)            (* if $keys.is_empty() { return Vec::new(); } — nothing pulled *)
+  else
   let cells := repeat VNone (length keys) in
   let* (cells, errors, n) := values_while_loop step keys cells errors 0 in
   let '(res, errors) := values_collect keys cells errors in
@@ -256,6 +258,8 @@ Fixpoint messages_tail (keys : list key) (cells : list (option l10n_message)) (e
 (* bundles.rs format_messages_from_inner! *)
 Definition format_messages_from_inner (step : list bundle_result) (keys : list key) (errors : list lerr)
   : outcome (list (option l10n_message) * list lerr * nat) :=
+  if is_nil keys then Done ([], errors, 0)            (* if $keys.is_empty() { return Vec::new(); } — nothing pulled *)
+  else
   let result := repeat None (length keys) in
   let* (result, is_complete, errors, n) := messages_while_loop step keys result errors 0 in
   let errors := if negb is_complete then messages_tail keys result errors else errors in
@@ -406,6 +410,9 @@ Fixpoint visits (pre rest : list bundle_result) (keys : list key) : nat :=
   | [] => 0
   | r :: rest' => if forallb (answered (pre ++ [r])) keys then 1 else S (visits (pre ++ [r]) rest' keys)
   end.
+(* a batch request: nothing is visited for an empty key list (the macros return before the loop) *)
+Definition batch_visits (seq : list bundle_result) (keys : list key) : nat :=
+  if is_nil keys then 0 else visits [] seq keys.
 End Groups.
 
 (* Abstraction of cache.rs used by the correspondence run for repeated requests on one instance:
